@@ -612,3 +612,131 @@ def check_signed_attrs_decoder(ctx, f):
         ok = len(cs) == 1 and arg_renders(cs[0])[1] == str(val)
         ctx.ob("R-FLOW", "%s:strict=%d" % (short(caller), val), ok,
                "%s decodes with strict=%s" % (short(caller), bool(val)), where=cb.loc)
+
+
+# ---------------------------------------------------------------------------
+# R-SIB: capture mode vs re-decode mode (C04.b, C10.e)
+
+from engine.callgraph import CallGraph
+
+
+def _mode_const(t):
+    t = strip(t)
+    if t[0] == "agg" and t[1] == "bcder::Mode":
+        return t[2]
+    return None
+
+
+def ber_reachable(f):
+    """Bodies that may run with a decoder in BER mode: reachable from a body that passes
+    Mode::Ber to Mode::decode, not crossing an explicit Mode::Der.decode(..) boundary."""
+    cg = CallGraph(f)
+    roots = []
+    for n, b in f.bodies.items():
+        for blk in b.blocks:
+            for s in blk["stmts"]:
+                if s["s"] == "assign" and s["rv"]["r"] == "agg" and s["rv"].get("adt") == "bcder::Mode" \
+                        and s["rv"].get("variant") == "Ber":
+                    roots.append(n)
+    roots = sorted(set(roots))
+    seen = set()
+    work = []
+    # from a BER root, the callbacks of its Mode::decode call run in BER
+    for r in roots:
+        b = f.body(r)
+        for c in b.calls():
+            if c.res == "bcder::Mode::decode":
+                for a in arg_terms(c)[1:]:
+                    for x in walk(a):
+                        if x[0] == "fnref" and x[1] in f.bodies:
+                            work.append((x[1], r))
+                        if x[0] == "closure" and x[1] in f.bodies:
+                            work.append((x[1], r))
+    parent = {}
+    while work:
+        n, p = work.pop()
+        if n in seen:
+            continue
+        seen.add(n)
+        parent[n] = p
+        b = f.body(n)
+        s = sym_of(b)
+        used_closures = set()
+        for c in b.calls():
+            if b.is_cleanup(c.bb) or not c.is_static:
+                continue
+            ats = arg_terms(c)
+            der_reset = c.res == "bcder::Mode::decode" and ats and _mode_const(ats[0]) == "Der"
+            if c.res in f.bodies and not der_reset:
+                work.append((c.res, n))
+            elif c.trait and "res" not in c.k:
+                for m in cg.impl_methods(c.trait, c.name):
+                    work.append((m, n))
+            for a in ats:
+                for x in walk(a):
+                    if x[0] in ("fnref", "closure") and x[1] in f.bodies:
+                        used_closures.add(x[1])
+                        if not der_reset:
+                            work.append((x[1], n))
+        for _, _, cdef, _ in b.closures_created():
+            if cdef not in used_closures and cdef in f.bodies:
+                work.append((cdef, n))
+    return seen, parent, roots
+
+
+def check_redecode_modes(ctx, f, only=None, rule="R-SIB"):
+    ber, parent, roots = ber_reachable(f)
+    ctx.floor(rule, "BER decode entry points", len(roots), 2)
+    n_sites = 0
+    for name, b in f.bodies.items():
+        if only and not any(name.startswith(o) or name.startswith("<" + o) for o in only):
+            continue
+        adt = b.rec.get("impl_adt")
+        root_b = f.body(b.rec.get("root", name)) or b
+        adt = adt or root_b.rec.get("impl_adt")
+        if not adt or adt not in f.adts:
+            continue
+        cap_fields = {fl["name"] for v in f.adts[adt]["variants"] for fl in v["fields"] if fl["ty"] == "bcder::Captured"}
+        if not cap_fields:
+            continue
+        for c in b.calls():
+            if c.res != "bcder::Mode::decode" or b.is_cleanup(c.bb):
+                continue
+            ats = arg_terms(c)
+            mode = _mode_const(ats[0])
+            src = render(ats[1])
+            m = re.match(r"^(?:\w+⟵)?self\.(\w+)$", src)
+            if mode is None or not m or m.group(1) not in cap_fields:
+                continue
+            n_sites += 1
+            # constructors of the ADT from a capture
+            ctors = {root_fn_name(f, x[0].name) for x in aggregates_of(f, adt) if not is_derived_body(x[0])}
+            ctors_closure = {x[0].name for x in aggregates_of(f, adt) if not is_derived_body(x[0])}
+            ber_ctors = sorted(x for x in ctors_closure if x in ber)
+            ok = not (mode == "Der" and ber_ctors)
+            detail = None
+            if not ok:
+                chain = []
+                n = ber_ctors[0]
+                while n in parent and len(chain) < 12:
+                    chain.append(n)
+                    n = parent[n]
+                chain.append(n)
+                detail = {"re-decode": "Mode::%s.decode(self.%s)" % (mode, m.group(1)),
+                          "constructor_reachable_in_BER": ber_ctors, "via": chain[::-1]}
+            ctx.ob(rule, "%s:redecode-mode[%s.%s]" % (short(root_fn_name(f, name)), short(adt), m.group(1)), ok,
+                   "%s re-decodes the captured %s.%s in an explicit mode that every capture path also uses"
+                   % (short(root_fn_name(f, name)), short(adt), m.group(1)), where=c.where(), detail=detail)
+    return n_sites
+
+
+def root_fn_name(f, name):
+    b = f.body(name)
+    return b.rec.get("root", name) if b is not None else name
+
+
+def is_derived_body(body):
+    for blk in body.blocks:
+        sp = blk["term"].get("sp")
+        return bool(sp and len(sp) > 1 and sp[1].startswith("#[derive"))
+    return False
